@@ -530,6 +530,8 @@ Exec1(S, p, in) ==
          Snap(Emit(S1, DoEv(p, in, IF S1.k.gq[GCOND] # kk.gq[GCOND] THEN 1 ELSE 0, 0, t)))
     [] op = "setflag" -> Snap(Emit(SetK(S, [kk EXCEPT !.flag[a1 + 1] = a2]), DoEv(p, in, 0, 0, t)))
     [] op = "csub" -> Snap(Emit(SetK(S, [kk EXCEPT !.csub[IF a1 = 0 THEN 1 ELSE GBUFF] = @ + 1]), DoEv(p, in, 0, 0, t)))
+    [] op = "cunsub" -> LET g == IF a1 = 0 THEN 1 ELSE GBUFF IN
+                        Snap(Emit(SetK(S, [kk EXCEPT !.csub[g] = IF @ > 0 THEN @ - 1 ELSE 0]), DoEv(p, in, IF kk.csub[g] > 0 THEN 1 ELSE 0, 0, t)))
     [] op = "ccancel" ->
          IF \E x \in kk.gq[GCOND] : x.p = a1
            THEN LET S1 == Emit(SetK(S, [kk EXCEPT !.gq[GCOND] = {x \in @ : x.p # a1}]), [e |-> "GuardCancel", g |-> GCOND, p |-> a1, t |-> t])
